@@ -35,7 +35,7 @@ import json
 from harness import core
 from harness.core import coq_str
 
-GEN = []
+GEN = ['CtxFacts']
 
 MANIFEST = {
     'level_text': 'Coq theorems over Model/Ctx.v and Model/Publish.v, all contexts / paths / versions / published dicts '
@@ -899,6 +899,19 @@ def expected_var(k, in_ctx, wctx, inp):
     return ('absent',)
 
 
+def shift_values(d):
+    """same shape, other scalar values"""
+    if isinstance(d, dict):
+        return {k: shift_values(v) for k, v in d.items()}
+    if isinstance(d, list):
+        return [shift_values(v) for v in d]
+    if isinstance(d, bool) or d is None:
+        return d
+    if isinstance(d, int):
+        return d + 10
+    return d + 'z'
+
+
 def suite_publish(ctx):
     """publish_variables with the real YAQL/Jinja evaluators on fake rows and real parsed specs"""
     data_flow, _ = real_df()
@@ -906,7 +919,7 @@ def suite_publish(ctx):
     rng = ctx.rng
     exprs, impls, cases = [], [], []
     outcomes = {}
-    for n_case in range(ctx.n(400, 6000)):
+    for n_case in range(ctx.n(250, 4000)):
         if n_case < len(CORPUS_PUBLISH):
             t, state = copy.deepcopy(CORPUS_PUBLISH[n_case]['task']), CORPUS_PUBLISH[n_case]['state']
         else:
@@ -948,6 +961,22 @@ def suite_publish(ctx):
         cases.append(rep)
         exprs.append('show_pubres (publish_variables "tid" "t1" %s %s %s %s %s %s %s)' % (
             cd(in_ctx), cd(env), cd(wctx), cd(inp), cpd(tl), cops(oc), cops(oncl)))
+        # the SAME spec object serves the next execution of the task (loops, other workflow runs through
+        # the spec cache): a second evaluation under other data must not see anything of the first one
+        in_ctx2 = shift_values(in_ctx)
+        wf_ex2 = mk_wf_ex(env, wctx, inp)
+        task_ex2 = O(id='tid', name='t1', state=state, in_context=py_ctx(in_ctx2, vers), published={}, workflow_execution=wf_ex2)
+        try:
+            data_flow.publish_variables(task_ex2, ts)
+            impl2 = {'published': task_ex2.published, 'wctx': wf_ex2.context}
+        except (exc.MistralException,):
+            impl2 = 'error'
+        except Exception as e:
+            impl2 = 'crash:%s' % type(e).__name__
+        impls.append(impl2)
+        cases.append(dict(rep, in_context=in_ctx2, second_call_on_same_spec=True))
+        exprs.append('show_pubres (publish_variables "tid" "t1" %s %s %s %s %s %s %s)' % (
+            cd(in_ctx2), cd(env), cd(wctx), cd(inp), cpd(tl), cops(oc), cops(oncl)))
     res = core.coq_eval('c05pub', IMPORTS, exprs)
     for rep, impl, m in zip(cases, impls, res):
         mj = json.loads(core.unquote(m))
@@ -997,6 +1026,21 @@ def suite_output_vars(ctx):
             impl = ('error',)
         if w.changed():
             ctx.fail('mutated:%s:%s' % (which, ','.join(w.changed())), '%s evaluation changed the stored %s' % (which, w.changed()), rep)
+        if impl[0] == 'val' and isinstance(impl[1], dict):
+            raw_spec = wf_dict.get(which) or {}
+            # workflow context keys added by the engine itself are not workflow data
+            src = (in_ctx, wctx, inp) if which == 'output' else (wctx, inp)
+            for var, raw in raw_spec.items():
+                pe = SURF.get(raw) if isinstance(raw, str) else None
+                if pe and 'path' in pe and len(pe['path']) == 1 and pe['path'][0] != '__env':
+                    want = ('absent',)
+                    for dd in src:
+                        if pe['path'][0] in dd:
+                            want = ('val', dd[pe['path'][0]])
+                            break
+                    if want[0] == 'val' and impl[1].get(var, ('absent',)) != want[1]:
+                        ctx.fail('fallback:wrong-source:%s' % which,
+                                 '%s %s=%r but the visible value of %s is %r' % (which, var, impl[1].get(var), pe['path'][0], want[1]), rep)
         impls.append(impl)
         cases.append(rep)
         if which == 'output':
@@ -1317,10 +1361,122 @@ SUITES = [suite_outbound, suite_merge, suite_upstream, suite_final, suite_view, 
           suite_output_vars, suite_call_site_views, suite_e2e]
 
 
+# ---------------------------------------------------------------------------
+# oracle-only passes (no model): used by search() and replay()
+
+def oracle_history(ctx, tasks, orders=3, seed=0):
+    """latest-publisher visibility for every task of the history, every permutation of its
+    parents' rows, under several seeded orders of the ancestors' own joins"""
+    import random
+    reqs = latest_requirements(tasks)
+    for o in range(orders):
+        rows = run_history(tasks, random.Random('order/%s/%s' % (seed, o)))
+        tab = unhash_table(tasks)
+        for i, t in enumerate(tasks):
+            if not t['parents'] or len(t['parents']) > 5:
+                continue
+            ups = rows_of_history(tasks, rows, i, tab)
+            mine = [(q, path, x, classify_stale(tasks, i, q, path)) for (ti, q, path, x) in reqs if ti == i]
+            check_upstream_perms(ctx, 'search', ups, [], [], {'history': tasks, 'task': i}, mine)
+
+
+def oracle_get_publish(ctx, t, state, rng):
+    wf_spec, text = parse_wf({'type': 'direct', 'tasks': {'t1': task_yaml(t, rng)}}, validate=False)
+    ps = wf_spec.get_tasks()['t1'].get_publish(state)
+    got_br = set((ps.get_branch() if ps else None) or {})
+    got_gl = set((ps.get_global() if ps else None) or {})
+    for sig, missing in classify_dropped(t, state, got_br, got_gl).items():
+        ctx.fail(sig, 'get_publish(%s) drops the declared variables %s' % (state, sorted(missing)),
+                 {'kind': 'get_publish', 'task': t, 'yaml': text, 'state': state, 'missing': sorted(missing)})
+
+
 def search(ctx):
-    pass
+    """Widened oracle-only search for a failing input (no model involved), bounded (~2 min)."""
+    import time
+    real_df()
+    rng = ctx.rng
+    t0 = time.time()
+    for n in range(400):
+        oracle_history(ctx, gen_history(rng, typechange=rng.random() < 0.4, nmax=7), orders=2, seed=n)
+        if time.time() - t0 > 50:
+            break
+    for n in range(1500):
+        oracle_get_publish(ctx, gen_task_publish(rng), rng.choice(['SUCCESS', 'ERROR']), rng)
+    stats = {}
+    t0 = time.time()
+    for n in range(40):
+        check_e2e_history(ctx, gen_history(rng, typechange=rng.random() < 0.3, nmax=6), 7000 + n, stats)
+        if time.time() - t0 > 50:
+            break
 
 
 def replay(obj):
-    print(json.dumps(obj, indent=1)[:3000])
-    return 1
+    """./check C05 --replay <file>: re-run the recorded input on the real code; exit 1 while it still fails"""
+    import logging
+    logging.disable(logging.CRITICAL)
+    r = obj.get('replay') or {}
+    kind = r.get('kind')
+    ctx = core.Ctx('C05', 'quick', obj.get('seed', 0))
+    real_df()
+    if kind == 'get_publish':
+        print(r['yaml'])
+        oracle_get_publish(ctx, untuple_task(r['task']), r['state'], ctx.rng)
+    elif kind == 'history':
+        print(json.dumps(r['history']))
+        oracle_history(ctx, r['history'], orders=4)
+    elif kind == 'e2e-history':
+        print(r['yaml'])
+        for k in range(8):
+            check_e2e_history(ctx, r['history'], r['driver_seed'] + k, {})
+    elif kind == 'e2e-publish':
+        print(r['yaml'])
+        check_e2e_publish(ctx, r['name'], untuple_task(r['task']), r['driver_seed'], ctx.rng)
+    else:
+        print(json.dumps(obj, indent=1, default=str)[:4000])
+        print('(this kind of record is informative: re-run ./check C05 to re-evaluate it)')
+        return 1
+    sigs = sorted(set(f['signature'] for f in ctx.failures))
+    for f in ctx.failures[:3]:
+        print('STILL FAILS [%s]: %s' % (f['signature'], f['what']))
+    if not ctx.failures:
+        print('the recorded input no longer fails (required: %s)' % obj.get('what'))
+    return 1 if obj.get('signature') in sigs or (ctx.failures and not obj.get('signature')) else 0
+
+
+def untuple_task(t):
+    """pexpr trees come back from JSON as lists: restore the tuple form used by the generators"""
+    def pe(x):
+        if isinstance(x, (list, tuple)) and len(x) == 2 and x[0] in ('lit', 'path', 'get', 'list', 'dict'):
+            k, v = x
+            if k == 'list':
+                return ('list', [pe(y) for y in v])
+            if k == 'dict':
+                return ('dict', {kk: pe(y) for kk, y in v.items()})
+            return (k, v)
+        return x
+    out = {}
+    for part in ('publish', 'publish-on-error'):
+        out[part] = {k: pe(v) for k, v in (t.get(part) or {}).items()}
+    for oc in ('on-complete', 'on-success', 'on-error'):
+        out[oc] = None if not t.get(oc) else {pk: (None if pv is None else {k: pe(v) for k, v in pv.items()}) for pk, pv in t[oc].items()}
+    return out
+
+
+SELFTEST = """
+Mutations of the anchored source tried one at a time in a scratch worktree (VERIF_REPO=/tmp/wt ./check C05);
+every one yields VIOLATION lines; the NEW failing-input signature (beyond the findings F5/F7 present on the
+unchanged tree) is given, `disagreement` = correspondence only (no property-level failing input exists or was found):
+  M1  context_versioning.get_in_context_with_versions: deepcopy -> dict()      mutated:outbound:in_context, mutated:upstream:in_context
+  M2  context_versioning._merge_ctx: r_ver > l_ver -> >=                         disagreement (merge/upstream) + obligation C05_source_facts
+  M3  get_in_context_with_versions: versions[updated] += 1 -> = 1                stale:same-shape
+  M4  data_flow.publish_variables: ContextView(..., wf_ex.input, wf_ex.context)  fallback:wrong-source
+  M7  expressions.evaluate_recursively: no deepcopy of the clause                fallback:wrong-source (second evaluation of one spec) + disagreement
+  M8  context_versioning._merge_versions: max -> min                             stale:same-shape
+  M11 data_flow.evaluate_task_outbound_context: inherited over published         stale:same-shape
+  M12 lang/v2/tasks.get_publish: on-complete publish ignored next to `publish`   declared-not-published:branch
+  M13 data_flow.evaluate_upstream_context: first upstream row not merged         stale:same-shape
+  M14 data_flow.evaluate_workflow_output: wf_ex.context before the final ctx     fallback:wrong-source:output
+The candidate fixes for F5 (PublishSpec.merge takes the other side's part when its own is None) and F7
+(_get_published_keys_recursively also versions dict-valued keys) make every oracle pass (failures=0) and leave
+only model disagreements, as expected of a faithful model of the unfixed code.
+"""
